@@ -9,26 +9,26 @@ T3 = "bounded run-time contract monitor over an exhaustively enumerated small sc
 T1 = "contract-based deductive verification: VCs generated from the real AST (pyvc) and discharged by z3"
 
 CHECKS = {
-    "C01": ("exploration", "Top-level contract of compile(): machine(routine_ops) is bisimilar to the reference semantics of the source (spec/sem.py, written from docs/language_spec.rst, independent of the compile handlers) for every outcome of every test, plus routine ids/kinds/targets/coroutine names; evaluated on every program of an exhaustive small scope (all control skeletons up to a size bound) and seeded random programs. The compile handlers are not within the deductive layer's reach (visitor-built object graphs), so the level is exploration.", "trusted: spec/sem.py + spec/machine.py as the reading of the language specification; ANTLR parser; bounded scope", T3 + "; oracle = independent reference semantics", "§4 C01"),
+    "C01": ("exploration", "Top-level contract of compile(): machine(routine_ops) is bisimilar to the reference semantics of the source (spec/sem.py, written from docs/language_spec.rst, independent of the compile handlers) for every outcome of every test, plus routine ids/kinds/targets/coroutine names; evaluated on every program of an exhaustive small scope (all control skeletons up to a size bound) and seeded random programs. Deductive layer (pyvc+z3, all inputs): OpsLabelJumpToRemover.__init__ (output = input without labels, jumps replaced by their roots, order kept, target appended last), strip_last_label and LabelFinalizer (no exception, shape, only labels renumbered), does_op_end_control_flow, the loop/case stacks. The ~40 compile handlers are not within the deductive layer's reach (visitor-built object graphs), so the level is exploration.", "trusted: spec/sem.py + spec/machine.py as the reading of the language specification; ANTLR parser; bounded scope", T3 + "; oracle = independent reference semantics", "§4 C01"),
     "C02": ("exploration", "Contract of ExplorerScriptSsbDecompiler.convert() on well-formed SSB routine sets: the text compiles, machine(compile(text)) and sem(text) are bisimilar to machine(input), headers equal; bounded over compiler output, all small op lists, re-layouts and random lists. Deductive layer: the offset->label resolver functions (process_op_for_jump, _build_end_offsets) are proved against their contracts.", "trusted: spec/machine.py, spec/sem.py; bounded scope; pyvc + z3 for the resolver contracts", T3 + " + " + T1 + " for the resolver", "§4 C02"),
-    "C03": ("exploration", "Closedness/uniqueness contract of compile() (both ExplorerScript and SsbScript paths) evaluated on every program of C01's space; deductive layer: Counter (allocation is strictly monotone, blocks disjoint) and its uniqueness lemma are proved.", "trusted: bounded scope; pyvc + z3 for the counter contracts; the link 'every handler takes its offset from the counter once' is only monitored", T3 + " + " + T1 + " for the offset counter", "§4 C03"),
+    "C03": ("exploration", "Closedness/uniqueness contract of compile() (both ExplorerScript and SsbScript paths) evaluated on every program of C01's space; deductive layer (proved for all inputs): Counter (allocation strictly monotone, blocks disjoint) and its uniqueness lemma, OpsLabelJumpToRemover.__init__ (no label / label-jump pseudo op remains, target is the last parameter), LabelFinalizer.__init__ (one routine per routine, offsets of real ops untouched), strip_last_label (one routine per routine), the SsbScript listener's label numbering, _process_parameters (every macro expansion owns its parameter list).", "trusted: bounded scope; pyvc + z3 for the counter contracts; the link 'every handler takes its offset from the counter once' is only monitored", T3 + " + " + T1 + " for the offset counter, the label passes and the SsbScript listener", "§4 C03"),
     "C04": ("exploration", "Print->parse and parse->value contracts on the real printers/readers over all strings up to a length bound on a hostile alphabet, all integer/decimal spellings, position marks, language strings, in every printing context and nesting depth, plus an independent reference implementation of the literal rules (spec/literals.py).", "trusted: spec/literals.py as reading of the spec; bounded scope", T3, "§4 C04"),
     "C05": ("exploration", "compile() of macro programs is bisimilar to the program with every call inlined (spec/sem.py), for all DAG call graphs on <= 3/4 macros x all definition orders x file layouts; import resolution order.", "trusted: spec/sem.py inlining semantics; bounded scope", T3, "§4 C05"),
-    "C06": ("exploration", "convert() raises nothing on well-formed input; a fallback text starts with the marker line and recompiles op for op. Deductive layer: parse_exps_meta_attributes (the marker reader) is proved total incl. termination.", "trusted: bounded scope; pyvc + z3 for the marker reader", T3 + " + " + T1 + " for the marker-line reader", "§4 C06"),
+    "C06": ("exploration", "convert() raises nothing on well-formed input; a fallback text starts with the marker line and recompiles op for op; an unmarked text parses and is accepted by the compiler. Deductive layer: parse_exps_meta_attributes (the marker reader) is proved total incl. termination.", "trusted: bounded scope; pyvc + z3 for the marker reader", T3 + " + " + T1 + " for the marker-line reader", "§4 C06"),
     "C07": ("exploration", "SsbScript decompile->compile is the identity on routine sets (ops, params, jump targets denote the corresponding ops) over ALL small op lists without well-formedness filter; deductive layer: resolver functions proved.", "trusted: bounded scope; pyvc + z3 for the resolver contracts", T3 + " + " + T1 + " for the resolver", "§4 C07"),
     "C08": ("exploration", "Source-map contract of compile() (every op has an entry; direct entries at the statement/header start; macro entries: file, macro, position, called_in, return-address bounds; files = contributing imports; position marks) over C01/C05 program spaces with varied layout. Deductive layer: SourceMapBuilder (stack discipline, called_in consumed once, entry fields) and Counter are proved.", "trusted: spec/esast.py positions; bounded scope; pyvc + z3 for SourceMapBuilder/Counter", T3 + " + " + T1 + " for SourceMapBuilder", "§4 C08"),
     "C09": ("exploration", "Decompile-time source map: keys are input offsets, each entry points at the start of the statement printed for its op, recompiling places the op on the same line. Deductive layer: the representation invariant _line_number == 1 + count('\\n', _output) is preserved by write_stmnt/write_line of both decompilers, and source_map_add_opcode + write_stmnt records the line on which the statement starts (lemma).", "trusted: bounded scope; str.count axioms (additive over concatenation); pyvc + z3", T3 + " + " + T1 + " for the line counter", "§4 C09"),
-    "C10": ("exploration", "compile() raises only ParseError/SsbCompilerError/ValueError on every text (valid corpus, single-token corruptions, prefixes, random text, meta attribute lines), always rejects each listed meaningless program class and leaves no output; import graphs; CLI exit status. Deductive layer: parse_exps_meta_attributes proved exception-free for every source (safety obligations + termination).", "trusted: bounded scope; opaque model of re/str library calls in pyvc", T3 + " + " + T1 + " safety obligations", "§4 C10"),
-    "C11": ("exploration", "compile()/convert() are functions of their arguments: all histories of length <= 3 over a pool of 12 calls (de Bruijn cover) vs fresh-process baselines, instance reuse, same input object twice, frame of convert().", "trusted: bounded histories", T3 + " over histories", "§4 C11"),
+    "C10": ("exploration", "compile() raises only ParseError/SsbCompilerError/ValueError on every text (valid corpus, single-token corruptions, prefixes, random text, meta attribute lines), always rejects each listed meaningless program class and leaves no output; import graphs; CLI exit status. Deductive layer: parse_exps_meta_attributes, strip_last_label, LabelFinalizer._labels_after/__init__ and the loop/case stack methods proved exception-free for every input satisfying the stated well-typed-heap precondition (safety obligations; IndexError of the stack pops exactly when empty).", "trusted: bounded scope; opaque model of re/str library calls in pyvc", T3 + " + " + T1 + " safety obligations", "§4 C10"),
+    "C11": ("exploration", "compile()/convert() are functions of their arguments: all histories of length <= 3 over a pool of 12 calls (de Bruijn cover) vs fresh-process baselines, instance reuse, same input object twice, frame of convert(), decompilation order (K processes), every call again in fresh processes with other string-hash seeds, static audit of mutable module/class state.", "trusted: bounded histories", T3 + " over histories", "§4 C11"),
     "C13": ("exploration", "decompile(compile(p)) of every flat structured program (exhaustive up to a bound) contains no jump statement and prints every operation once.", "trusted: spec/esast.py; bounded scope", T3, "§4 C13"),
-    "C14": ("proof", "Every obligation generated from the current source of SourceMap.rewrite_offsets and of the three leaf (de)serialisers (plus their round-trip lemmas) against contracts taken from the property text is discharged by z3 for all inputs and all iterations (loop invariants, termination of the return-address search). The JSON glue of SourceMap.serialize/deserialize (comprehensions around json.dumps/loads) and the `same text again` clause are only covered by a bounded stand-in (random maps through real JSON), labelled bounded in evidence.", "trusted: pyvc's encoding of Python (DESIGN §2.2), z3, assumed json round-trip contract, well-typed-heap precondition (int keys, one object per macro entry); bounded: SourceMap.serialize/deserialize glue", T1 + "; bounded run-time contract monitor as stand-in for the JSON glue", "§4 C14"),
+    "C14": ("proof", "Every obligation generated from the current source of SourceMap.rewrite_offsets and of the three leaf (de)serialisers (plus their round-trip lemmas) against contracts taken from the property text is discharged by z3 for all inputs and all iterations (loop invariants, termination of the return-address search). The JSON glue of SourceMap.serialize/deserialize (comprehensions around json.dumps/loads) and the `same text again` clause are only covered by a bounded stand-in (random maps through real JSON), labelled bounded in evidence; SourceMapBuilder.add_macro_opcode is proved to allocate one entry object per op (rewrite_offsets' precondition), and source maps the compiler really builds are checked for it as a bounded stand-in.", "trusted: pyvc's encoding of Python (DESIGN §2.2), z3, assumed json round-trip contract, well-typed-heap precondition (int keys, one object per macro entry); bounded: SourceMap.serialize/deserialize glue", T1 + "; bounded run-time contract monitor as stand-in for the JSON glue", "§4 C14"),
     "C15": ("exploration", "Both CLIs as subprocesses on generated programs and on documents enumerating every documented routine/argument type: JSON schema from the docs, jump parameter = 1-based position of its target, decompile accepts the output and the result is bisimilar, exit status.", "trusted: bounded scope; jsonschema written from docs/cli_api_usage.rst", T3 + " (subprocess level)", "§4 C15"),
     "C16": ("exploration", "Relational contract of compile(): every re-spelling (layout, comments at every token boundary, @/§, for_actor/for actor, trailing comma, integer bases, decimal zeros, quote style) compiles to identical ops/tables/position marks.", "trusted: the re-spelling generator only applies transformations the grammar defines as equivalent; bounded scope", T3 + " (metamorphic)", "§4 C16"),
     "C17": ("proof", "Under a stated contract on Pygments' RegexLexer engine the property reduces to obligations on the lexer's token table: no rule matches the empty string (termination), every action emits the whole match (losslessness), every reachable state is total on non-newline input (no Error token, for ALL strings). The obligations are generated from the real processed table on every run and discharged by z3's regex theory; the engine contract and the normalisation reading are cross-checked by an exhaustive bounded run (labelled bounded).", "trusted: the assumed engine contract (Pygments source), the re->z3 translation, z3's regex solver; interpretation: 'up to the trailing newline' is read as Pygments' documented input normalisation", "contract-based deductive verification of the lexer's token table (regex VCs, z3) + bounded exhaustive cross-check", "§4 C17"),
     "C18": ("exploration", "PositionMarkVisitor listing vs an independent token-stream scan (order, spans, values vs compiled parameters) and the replacement contract (substituting the delimited span changes exactly that parameter), over generated placements of 1-4 literals.", "trusted: bounded scope; ANTLR token positions", T3, "§4 C18"),
 }
 
-T1_SERVED = ["C02", "C03", "C06", "C07", "C08", "C09", "C10", "C14"]
+T1_SERVED = ["C01", "C02", "C03", "C04", "C05", "C06", "C07", "C08", "C09", "C10", "C14", "C15"]
 
 
 def main(claimed: list[str]) -> None:
@@ -66,7 +66,7 @@ def main(claimed: list[str]) -> None:
         ],
         "checks": checks,
         "not_applicable": na,
-        "notes": "see DESIGN.md; known_findings.json lists fixed defects (24+ fix: commits in /repo) and the findings that are recorded rather than repaired",
+        "notes": "see DESIGN.md; known_findings.json lists fixed defects (~60 fix: commits in /repo) and the findings that are recorded rather than repaired",
     }
     with open(os.path.join(ROOT, "MANIFEST.json"), "w") as fh:
         json.dump(m, fh, indent=1)
